@@ -186,6 +186,21 @@ impl KeyBytes {
     }
 }
 
+#[cfg(libp2p_verif)]
+impl KeyBytes {
+    /// Verification hook: a key with exactly the given (already hashed) bytes.
+    pub fn verif_from_bytes(bytes: [u8; 32]) -> Self {
+        KeyBytes(Array::from(bytes))
+    }
+
+    /// Verification hook: the raw bytes of the key.
+    pub fn verif_bytes(&self) -> [u8; 32] {
+        let mut out = [0u8; 32];
+        out.copy_from_slice(self.0.as_slice());
+        out
+    }
+}
+
 impl AsRef<KeyBytes> for KeyBytes {
     fn as_ref(&self) -> &KeyBytes {
         self
